@@ -9,7 +9,7 @@ def dupInputFields : Children → List Name → List RErr
     (if seen.contains n then [errAt (str "There can be only one input field named " ++ dq n ++ str ".") p] else [])
       ++ dupInputFields rest (n :: seen)
 
-def uniqueInputFieldNamesStep (_ : Schema) (_ : QueryDoc) (e : Event) : List RErr :=
+def uniqueInputFieldNamesStep (_ : SV) (_ : QueryDoc) (e : Event) : List RErr :=
   match e.p with
   | .value v _ _ => if v.kind == .object then dupInputFields v.children [] else []
   | _ => []
